@@ -64,10 +64,10 @@ func genC12(t *rapid.T) CaseC12 {
 	e.Partition = rapid.Byte().Draw(t, "partition")
 	nr := rapid.SampledFrom([]int{0, 0, 0, 1, 2, 5, 20}).Draw(t, "nreserved")
 	if rapid.IntRange(0, 5).Draw(t, "fill-length-byte") == 0 {
-		// reserved bytes up to a data_field_length of 179: the longest boundary point the private data of an adaptation
-		// field can hold (183 - flags byte - length byte - tag - length); longer ones exist in no transport stream
+		// reserved bytes up to a data_field_length of 253..255 (the length byte's maximum; "any ... trailing reserved bytes"),
+		// and around 179, the longest boundary point the private data of an adaptation field can hold
 		body := len(e.Bytes()) - 2
-		nr = rapid.SampledFrom([]int{179, 178, 177, 160, 129, 128, 127}).Draw(t, "target-length") - body
+		nr = rapid.SampledFrom([]int{253, 254, 255, 200, 179, 178, 129, 128}).Draw(t, "target-length") - body
 		if nr < 0 {
 			nr = 0
 		}
